@@ -76,8 +76,30 @@ def make_line(rng, v, seg, kind, toks, ec):
     return line
 
 
+class HashTokens(object):
+    """tokens holding '#': plain data in a message whose MSH-2 declares no truncation character"""
+
+    def __init__(self, toks):
+        self.toks = toks
+
+    def next(self):
+        return self.toks.next() + '#t'
+
+
+def ec_of(v, text):
+    """the standard set of the version, without TRUNCATION when MSH-2 of `text` has four characters"""
+    ec = dict(er7ref.std(v))
+    if 'TRUNCATION' in ec and text[8:9] == ec['FIELD']:
+        del ec['TRUNCATION']
+    return ec
+
+
 def build(rng, v, toks, zmsg=False):
     ec = gen.full_ec(er7ref.std(v))
+    if 'TRUNCATION' in ec and rng.random() < 0.5:
+        # v2.7+: messages with and without a truncation character alternate in the same process
+        del ec['TRUNCATION']
+        toks = HashTokens(toks)
     msgs = tables.messages(v)
     names = [n for n in sorted(msgs) if structref.usable(v, msgs[n]) and structref.msh9_for(v, n)]
     allsegs = [s for s, rows in sorted(tables.segments(v).items()) if rows and s != 'MSH']
@@ -158,7 +180,8 @@ def classify(v, kind, d, fg, instruct):
 
 def check(parser, v, text, fg, rec, kinds=(), instruct=()):
     from hl7apy.exceptions import HL7apyException
-    ec = er7ref.std(v)
+    ec = ec_of(v, text)
+    rec.seen('truncation_declared', '%s:%s' % (v >= '2.7', 'TRUNCATION' in ec))
     case = {'kind': 'message', 'version': v, 'find_groups': fg, 'text': text, 'instruct': sorted(instruct)}
     sig = (v, fg, tuple(kinds), tuple(er7ref.shape(f) for _, f in er7ref.tokenize_message(text, ec)[1][1:]))
     try:
